@@ -324,6 +324,15 @@ def real_text(text):
 CLS_NAMES = ['Cls', 'S_', 'In', 'Deep']
 
 
+KEY_ATTRS = [['__attribute__', '(', '(', 'packed', ')', ')'], ['__attribute__', '(', '(', 'aligned', '(', '8', ')', ')', ')'],
+             ['__declspec', '(', 'dllexport', ')'], ['__declspec', '(', 'align', '(', '16', ')', ')']]
+
+
+def key_attr(rng):
+    """an attribute between the class key and the name (or the brace of an anonymous type)"""
+    return list(rng.choice(KEY_ATTRS)) if rng.random() < 0.15 else []
+
+
 def gen_class(rng, depth, in_class, td=False):
     """tokens of one class statement (definition or forward declaration); returns (tokens, declarator budget, statements)"""
     from harness.props import c03, c01
@@ -335,7 +344,7 @@ def gen_class(rng, depth, in_class, td=False):
     name = None if anon else rng.choice(CLS_NAMES)
     if not anon and not td and rng.random() < 0.12:
         return pre[:0] + [key, name, ';'], 1, 1
-    toks = pre + [key] + ([] if anon else [name])
+    toks = pre + [key] + key_attr(rng) + ([] if anon else [name])
     if not anon and rng.random() < 0.15:
         toks += ['final']
     if not anon and rng.random() < 0.3:
@@ -408,7 +417,7 @@ def gen_enum_or_using(rng, in_class):
         if vals and rng.random() < 0.3:
             vals.append(',')
         pre = [rng.choice(['static', 'const'])] if rng.random() < 0.1 else []
-        return pre + key + name + base + ['{'] + vals + ['}'] + list(rng.choice(ENUM_TAILS_CLS if in_class else ENUM_TAILS_NS))
+        return pre + key + key_attr(rng) + name + base + ['{'] + vals + ['}'] + list(rng.choice(ENUM_TAILS_CLS if in_class else ENUM_TAILS_NS))
     if r < 0.75 and not in_class:
         return ['using', 'namespace'] + rng.choice([['n1'], ['::', 'n1', '::', 'n2'], ['n1', '::', 'n2']]) + [';']
     if r < 0.9:
